@@ -159,7 +159,12 @@ func runFinalizeProposal(ctx *action.Context, tx action.RawTx) (bool, action.Res
 	//Get Vote Result
 	voteStatus, err := ctx.ProposalMasterStore.ProposalVote.ResultSoFar(proposal.ProposalID, proposal.PassPercentage)
 	if err != nil {
-		return helpers.LogAndReturnFalse(ctx.Logger, governance.ErrUnabletoQueryVoteResult, finalizedProposal.Tags(), err)
+		// a proposal whose voting began without any active validator has no vote records at all;
+		// once its votes have expired it is finalised like any other expired proposal (see below)
+		if proposal.Outcome != governance.ProposalOutcomeInsufficientVotes {
+			return helpers.LogAndReturnFalse(ctx.Logger, governance.ErrUnabletoQueryVoteResult, finalizedProposal.Tags(), err)
+		}
+		voteStatus = governance.NewVoteStatus(governance.VOTE_RESULT_TBD, 0, 0, 0)
 	}
 
 	//Handle Result TBD
